@@ -196,6 +196,94 @@ def run(index, rep, tier):
 
         thin_clone_rule(index, rep, "R08.5")
 
+    # ---- R08.7
+    with rep.section("R08.7"):
+        rep.rule("R08.7", "every outdegree-one node goes: in Tree.suppress_unifurcations each node found with exactly one child is spliced out on every path (no skip between the single-child test and the re-linking); in Node.extract_subtree, with suppression requested, a node left with exactly one surviving child is always merged - no further condition")
+        su = index.function(TREE + ".suppress_unifurcations")
+        cfg = cfg_of(su)
+        singles = [n for n in cfg.nodes if n.kind == "test" and isinstance(n.ast, ast.Compare) and isinstance(n.ast.left, ast.Call) and call_name(n.ast.left) == "len" and const_value(n.ast.comparators[0]) == 1 and isinstance(n.ast.ops[0], ast.Eq)]
+        if len(singles) != 1:
+            raise AnalysisError("R08.7: single-child test in suppress_unifurcations not recognised")
+        relink = lambda n: (n.kind == "stmt" and isinstance(n.ast, ast.Assign) and norm(n.ast.targets[0]) in ("self.seed_node", "self._seed_node")) or \
+            any(call_name(c) in ("insert_child", "add_child", "set_child_nodes") for c in node_calls(n))
+        starts = [d for l, d in singles[0].succ if l == "t"]
+        esc = None
+        for x in cfg.reach(starts, avoid=relink, follow_exc=False):
+            if x.kind in ("for",) or x is cfg.exit:
+                esc = x
+                break
+        rep.check(esc is None, "R08.7", su.qualname, "single-child node can be skipped", fn_where(su, singles[0].stmt), "suppress_unifurcations: every node with one child is re-linked out of the tree",
+                  "Tree.suppress_unifurcations has a path from `%s` back to the loop head that splices nothing out: some outdegree-one nodes survive (e.g. a root left with a single leaf), so pruning down to few taxa does not give the induced subtree and disagrees with extraction" % norm(singles[0].ast))
+        ex = index.function(NODE + ".extract_subtree")
+        chains = [n for n in ast.walk(ex.node) if isinstance(n, ast.If) and any(isinstance(a, ast.AugAssign) and "edge.length" in norm(a.target) for a in ast.walk(n))]
+        chains = [c for c in chains if not any(c is x for o in chains if o is not c for x in ast.walk(o) if x is not o)]
+        if len(chains) != 1:
+            raise AnalysisError("R08.7: merge chain of extract_subtree not recognised")
+        chain = chains[0]
+        accs = {norm(n.ast.left.args[0]) for n in cfg_of(ex).nodes if n.kind == "test" and isinstance(n.ast, ast.Compare) and isinstance(n.ast.left, ast.Call) and call_name(n.ast.left) == "len" and n.ast.left.args and const_value(n.ast.comparators[0]) == 1}
+        if len(accs) != 1:
+            raise AnalysisError("R08.7: surviving-children accumulator of extract_subtree not recognised")
+        acc = accs.pop()
+        # atoms of the chain other than the flag and the single-child test are free: the merge branch must be taken whatever they are
+        base = {"suppress_unifurcations": True, "len(%s) == 1" % acc: True, acc: True, "not %s" % acc: False}
+        # a flag set to True inside the loop that collects the surviving children is True once one survived
+        for lp in ast.walk(ex.node):
+            if isinstance(lp, ast.For) and any(isinstance(c, ast.Call) and call_name(c) == "append" and norm(c.func.value) == acc for c in ast.walk(lp)):
+                for a in lp.body:
+                    if isinstance(a, ast.Assign) and isinstance(a.targets[0], ast.Name) and const_value(a.value, None) is True:
+                        base[a.targets[0].id] = True
+        # locals defined once as a boolean combination are read through their definition
+        inline = {}
+        for a in walk_no_nested(ex.node):
+            if isinstance(a, ast.Assign) and isinstance(a.targets[0], ast.Name) and isinstance(a.value, (ast.BoolOp, ast.Compare, ast.UnaryOp)):
+                if sum(1 for b in walk_no_nested(ex.node) if isinstance(b, ast.Assign) and norm(b.targets[0]) == a.targets[0].id) == 1:
+                    inline[a.targets[0].id] = a.value
+        links = []
+        cur = chain
+        while True:
+            links.append(cur)
+            if len(cur.orelse) == 1 and isinstance(cur.orelse[0], ast.If):
+                cur = cur.orelse[0]
+            else:
+                break
+        free = set()
+        def leaves(t, depth=0):
+            out = []
+            for leaf in _bool_leaves(t):
+                if isinstance(leaf, ast.Name) and leaf.id in inline and depth < 3:
+                    out += leaves(inline[leaf.id], depth + 1)
+                else:
+                    out.append(leaf)
+            return out
+        for lk in links:
+            for leaf in leaves(lk.test):
+                if norm(leaf) not in base:
+                    free.add(norm(leaf))
+        free = sorted(free)
+        if len(free) > 6:
+            raise AnalysisError("R08.7: too many free conditions in the merge chain of extract_subtree")
+        import itertools
+        missed = []
+        has_merge = lambda body: any(isinstance(a, ast.AugAssign) and "edge.length" in norm(a.target) for st in body for a in ast.walk(st))
+        for vals in itertools.product((True, False), repeat=len(free)):
+            facts = dict(base)
+            facts.update(dict(zip(free, vals)))
+            d = Decision(facts=facts)
+            d.inline = inline
+            selected = links[-1].orelse
+            for lk in links:
+                try:
+                    if d.test(lk.test):
+                        selected = lk.body
+                        break
+                except Undecidable as e:
+                    raise AnalysisError("R08.7: merge chain of extract_subtree not decidable (%s)" % e)
+            # the branch that drops an emptied clade is taken only when no child survived: excluded by the base facts
+            if not has_merge(selected):
+                missed.append(dict(zip(free, vals)))
+        rep.check(not missed, "R08.7", ex.qualname, "single surviving child not merged when %s" % (missed[0] if missed else ""), fn_where(ex, chain), "extract_subtree: with suppression on, a node with one surviving child is merged whatever the other conditions (%s)" % (free or "none"),
+                  "Node.extract_subtree, with suppress_unifurcations truthy and exactly one surviving child, does not merge the node when %s: an outdegree-one node survives in the extracted tree (with its edge length not merged), so extraction disagrees with prune/retain on the same taxa" % (missed[0] if missed else ""))
+
     # ---- R08.6
     with rep.section("R08.6"):
         rep.rule("R08.6", "the three single-child splice-out sites (suppress_unifurcations, encode_bipartitions, extract_subtree) merge edge lengths with the same None handling: removed length None -> child unchanged; child None -> takes the removed length; both -> sum")
@@ -212,6 +300,17 @@ def run(index, rep, tier):
                       "%s merges lengths canonically: removed None -> child unchanged; child None -> takes the removed length; both -> sum" % fi.name,
                       "%s no longer merges the spliced-out node's edge length (`%s`) into its single child's (`%s`) the way its sibling sites do - cases (removed is None, child is None) -> child afterwards: %s, expected %s: path lengths through the removed node change, and extraction disagrees with in-place pruning"
                       % (fi.qualname, removed, child, {k: table[k] for k in sorted(bad)}, {k: want[k] for k in sorted(bad)}))
+
+
+def _bool_leaves(t):
+    if isinstance(t, ast.BoolOp):
+        out = []
+        for v in t.values:
+            out += _bool_leaves(v)
+        return out
+    if isinstance(t, ast.UnaryOp) and isinstance(t.op, ast.Not):
+        return _bool_leaves(t.operand)
+    return [t]
 
 
 def merge_semantics(fi):
